@@ -39,10 +39,20 @@ def git_config_calls(cg, fn):
             continue
         a = c.args[0]
         tail = None
+
+        def cv(e):
+            v = const_val(e)
+            if v is NOVAL and isinstance(e, ast.Name):
+                # a module-level constant (assigned once, a literal)
+                m = cg.repo.mod_of(fn)
+                vals = m.assigns.get(e.id, [])
+                if len(vals) == 1 and not any(isinstance(x, ast.Name) and x.id == e.id and isinstance(x.ctx, ast.Store) for x in ast.walk(fn)):
+                    return const_val(vals[0])
+            return v
         if isinstance(a, ast.BinOp) and isinstance(a.op, ast.Add) and isinstance(a.right, ast.List):
-            tail = [const_val(e) for e in a.right.elts]
+            tail = [cv(e) for e in a.right.elts]
         elif isinstance(a, ast.List):
-            tail = [const_val(e) for e in a.elts]
+            tail = [cv(e) for e in a.elts]
         out.append((c, kind, tail))
     return out
 
@@ -70,8 +80,11 @@ def _run_base(ctx):
         for c, tail in writes:
             st = repo.stmt_of(c)
             cons = repo.norm(c)
-            if tail is None or not tail or any(x is NOVAL for x in tail):
+            if tail is None or not tail or tail[0] is NOVAL:
                 ctx.inst('R18.1', fid, cons, False, 'git config arguments are not constant: the key written cannot be bounded', c)
+                continue
+            if any(x is NOVAL for x in tail[1:]) and not (isinstance(tail[0], str) and OWN.match(tail[0])):
+                ctx.inst('R18.1', fid, cons, False, 'the value written to %s is not constant' % tail[0], c)
                 continue
             if isinstance(tail[0], str) and tail[0].startswith('--'):
                 ctx.inst('R18.1', fid, cons, False, 'enable uses flag %s (adds/removes values instead of setting one key)' % tail[0], c)
@@ -257,6 +270,31 @@ def _run_base(ctx):
         per_line = any(isinstance(ge, (ast.GeneratorExp, ast.ListComp)) and any(x is mcmp for x in ast.walk(ge)) and
                        any(isinstance(c, ast.Call) and isinstance(c.func, ast.Attribute) and c.func.attr == 'startswith' and c.args and const_val(c.args[0]) == '#'
                            for i_ in ge.generators[0].ifs for c in ast.walk(i_)) for ge in ast.walk(t.test))
+        # statement form of the same scan: `for line in <lines>: if <comment>: continue; if MARKER in line.split(): return`
+        loop = None
+
+        def _is_comment_test(e):
+            return any(isinstance(c, ast.Call) and isinstance(c.func, ast.Attribute) and c.func.attr == 'startswith' and c.args and const_val(c.args[0]) == '#'
+                       for c in ast.walk(e))
+        anc = []
+        p_ = repo.parent(t)
+        while p_ is not None and p_ is not en and not isinstance(p_, ast.For):
+            anc.append(p_)
+            p_ = repo.parent(p_)
+        if isinstance(p_, ast.For) and not per_line:
+            L = p_
+            iter_reads = any(isinstance(c, ast.Call) and isinstance(c.func, ast.Attribute) and c.func.attr in ('read', 'readlines', 'splitlines')
+                             for c in ast.walk(L.iter)) or isinstance(L.iter, ast.Name)
+            tvars = {x.id for x in ast.walk(L.target) if isinstance(x, ast.Name)}
+            on_line = bool(tvars & names_in(mcmp.comparators[0]))
+            no_break = not any(isinstance(x, ast.Break) for x in ast.walk(L))
+            conts = [x for x in ast.walk(L) if isinstance(x, ast.Continue)]
+            conts_ok = all(isinstance(repo.parent(c_), ast.If) and _is_comment_test(repo.parent(c_).test) and c_ in repo.parent(c_).body for c_ in conts)
+            skips = bool(conts) and conts_ok or any(isinstance(a_, ast.If) and _is_comment_test(a_.test) for a_ in anc) or _is_comment_test(t.test)
+            anc_ok = all(isinstance(a_, ast.If) and _is_comment_test(a_.test) for a_ in anc)
+            if iter_reads and on_line and no_break and conts_ok and anc_ok and not L.orelse:
+                loop = L
+                per_line = skips
         ctx.inst('R18.4', fid, 'marker test reads %s' % ('rule lines (comments skipped)' if per_line else 'the whole file text'), per_line,
                  'only an effective rule line counts as installed' if per_line else
                  '`%r in <file text>` is true for a commented-out line ("# *.ipynb %s", the obvious way to switch the integration off by hand) or a rule for another pattern: '
@@ -267,8 +305,13 @@ def _run_base(ctx):
                  'tested marker %r does not identify the written line %r: a second enable appends again or never writes' % (tested, text), t)
         ok = bool(t.body) and isinstance(t.body[-1], ast.Return)
         rdst = repo.stmt_of(rd[0][0])
-        reach = g.reachable(rdst, removed=[g.branch(t, False)])
-        ok = ok and wst not in reach and g.dominated_by(t, [rdst])
+        if loop is None:
+            reach = g.reachable(rdst, removed=[g.branch(t, False)])
+            ok = ok and wst not in reach and g.dominated_by(t, [rdst])
+        else:
+            # every way from the read to the append runs the whole scan (the loop has no other exit than exhaustion and the return)
+            reach = g.reachable(rdst, removed=[loop])
+            ok = ok and wst not in reach and g.dominated_by(t, [rdst]) and not any(wst is x for x in ast.walk(loop))
         ctx.inst('R18.4', fid, 'read -> marker test -> append ordering', ok,
                  'once the file was read, the append is reachable only through "marker absent"' if ok else
                  'the append is reachable after the read without the marker-absent branch (duplicate lines)', t)
